@@ -874,6 +874,12 @@ class Flow(NLRI):
         if safi == SAFI.flow_ip and settings.rd is not None and settings.rd is not RouteDistinguisher.NORD:
             safi = SAFI.flow_vpn
 
+        # and the other way round: without its RD a flow-vpn NLRI is just the components, the peer takes
+        # their first eight octets for the route distinguisher and what is left, a shorter rule or none
+        # at all (which matches every packet), for the filter
+        if safi == SAFI.flow_vpn and (settings.rd is None or settings.rd is RouteDistinguisher.NORD):
+            raise ValueError('a flow-vpn rule requires a route distinguisher (rd <asn>:<number>)')
+
         instance = cls.make_flow(
             afi=settings.afi,
             safi=safi,
